@@ -190,7 +190,12 @@ func runStress(c *core.Case) {
 	if r.Intn(2) == 0 {
 		rn := w.nextRN()
 		w.log.add(ev{Ev: "deliver", RN: rn, Kind: "message", Typ: "chat", Note: "receipt/unsolicited"})
-		w.p.Send(fmt.Sprintf("<message type='chat' id='u%d' rcpt='1' rn='%d'><received xmlns='urn:xmpp:receipts' id='nobody'/></message>", rn, rn))
+		w.p.Send(w.receiptMessage(rn, fmt.Sprintf("u%d", rn), "<received xmlns='urn:xmpp:receipts' id='nobody'/>"))
+		// and the peer asks for a receipt of a message of its own: the handler
+		// answers it on the serve goroutine
+		rn = w.nextRN()
+		w.log.add(ev{Ev: "deliver", RN: rn, Kind: "message", Typ: "chat", Note: "receipt/requested-by-peer"})
+		w.p.Send(w.receiptMessage(rn, fmt.Sprintf("q%d", rn), "<request xmlns='urn:xmpp:receipts'/>"))
 	}
 	var wg sync.WaitGroup
 	for a := 0; a < nActors; a++ {
@@ -303,7 +308,7 @@ var _ = ctrl.New
 // Prop returns the C06 check.
 func Prop() *core.Prop {
 	req := []string{"stress_histories", "sentinels_answered", "routed_to_caller", "routed_to_handler", "porcupine_partitions",
-		"receipts_acknowledged", "receipts_cancelled", "forced_scenarios", "fast_peer_holds", "fast_peer_answer_processed_while_sender_held", "requests_explicitly_namespaced", "requests_with_empty_id_attribute", "component_stream_histories", "close_deadline_moved_during_waits", "broken_replies_survived", "failed_transmissions_answered_by_peer",
+		"receipts_acknowledged", "receipts_cancelled", "receipt_messages_with_text_or_siblings_around_the_payload", "forced_scenarios", "fast_peer_holds", "fast_peer_answer_processed_while_sender_held", "requests_explicitly_namespaced", "requests_with_empty_id_attribute", "component_stream_histories", "close_deadline_moved_during_waits", "broken_replies_survived", "failed_transmissions_answered_by_peer",
 		"muc_wait_cases", "ibb_wait_cases", "C18/join_success", "C18/join_cancelled", "C18/join_room_error_returned", "C18/leave_success", "C18/barriers", "C18/forced_M1_reached",
 		"C15/transfers", "C15/eof_after_close", "C15/refused_opens", "C15/listener_cases"}
 	for _, v := range vias {
